@@ -527,7 +527,38 @@ def _check_to(case):
     return (labs, fp, None)
 
 
-CHECKS = {"mf": _check_mf, "named": _check_named, "perm": _check_perm, "bij": _check_bij, "dictser": _check_dict_series,
+def _check_names_to(case):
+    """ThresholdOptimizer: the name of the sensitive-feature Series / DataFrame column is container metadata; 'score' and 'label' are the column names of
+    the frame ThresholdOptimizer groups internally"""
+    from fairlearn.postprocessing import ThresholdOptimizer
+    rng = np.random.default_rng(case[1])
+    d = _dataset(rng, both_labels=True, k_sf=1, cf=False)
+    fp = fingerprint(case)
+    cons, obj = TO_PAIRS[case[2] % len(TO_PAIRS)]
+    name = ("score", "label", "sex", "sensitive_feature_0")[(case[2] // 2) % 4]
+    as_frame = (case[2] // 8) % 2 == 1
+    X, y, col = np.array(d["X"]), list(d["y"]), list(d["sf"][0])
+    desc = {"constraints": cons, "objective": obj, "sensitive_features": f"{'one-column DataFrame' if as_frame else 'Series'} named {name!r}"}
+    res = []
+    for variant in (0, 1):
+        sf = col if variant == 0 else (pd.DataFrame({name: col}) if as_frame else pd.Series(col, name=name))
+        try:
+            t = ThresholdOptimizer(estimator=K.ColScore(), constraints=cons, objective=obj, grid_size=100, predict_method="predict")
+            t.fit(X, y, sensitive_features=sf)
+            res.append({"interpolation_dict": {(k, f): v for k, dd in K.interpolation_as_dict(t).items() for f, v in dd.items()},
+                        "_pmf_predict": K.flat(np.asarray(t._pmf_predict(X, sensitive_features=sf))),
+                        "predict": K.flat(np.asarray(t.predict(X, sensitive_features=sf, random_state=1)))})
+        except Exception as ex:
+            return _viol(True, fp, "TO:named-feature:raises" if variant else "TO:base-raises", f"ThresholdOptimizer({cons},{obj}).fit/predict raised {ex!r}"[:300], case, d, desc)
+    for part in res[0]:
+        diff = K.first_diff(res[1][part], res[0][part])
+        if diff:
+            return _viol(True, fp, f"TO:named-feature:{part}", f"ThresholdOptimizer({cons},{obj}): {part} differs from the plain-list fit ({diff}) when the sensitive feature is a "
+                         f"{desc['sensitive_features']}", case, d, desc, res[1][part], res[0][part])
+    return (True, fp, None)
+
+
+CHECKS = {"names_to": _check_names_to, "mf": _check_mf, "named": _check_named, "perm": _check_perm, "bij": _check_bij, "dictser": _check_dict_series,
           "names": _check_names, "moment": _check_moment, "eg": _check_reduction, "gs": _check_reduction, "to": _check_to}
 
 
@@ -559,7 +590,9 @@ def run_bounded(rep):
             ("threshold_optimizer", "to", 280 if q else 1800, "ThresholdOptimizer fit/_pmf_predict/predict over every supported constraint x objective"),
             ("dict_of_series", "dictser", 12 if q else 60, "MetricFrame with a dict of Series with different index labels"),
             ("feature_names", "names", 48 if q else 240, "MetricFrame with a sensitive / control feature given as a Series or one-column DataFrame whose name is "
-                                                          "y_true, y_pred, sex, score, label or 0")]
+                                                          "y_true, y_pred, sex, score, label or 0"),
+            ("feature_names_threshold_optimizer", "names_to", 32 if q else 160, "ThresholdOptimizer with the sensitive feature given as a Series or one-column DataFrame "
+                                                                                  "named score, label, sex or sensitive_feature_0")]
     for si, (name, kind, count, text) in enumerate(plan):
         cases = [(kind, rep.seed * 1000003 + si * 100003 + i, i) for i in range(count)]
         run_cases(rep, name, rule=f"{text}; seeded datasets n=6..12, containers and index labels (permuted/offset/duplicated/string/reversed) drawn per "
